@@ -25,7 +25,7 @@ Conventions learnt from tree_node.go / parser.go and by experiment (all render-n
 * a literal on the left of a condition stays on the left (`condStaticL`); the operator is mirrored at
   run time (`Op.swap` in `Impl.nodeCmp`);
 * quotes around condition operands are stripped (`condL`/`condR`), around case operands they are kept;
-* a loop separator loses trailing blanks (the tag is trimmed before it is analysed);
+* a loop separator loses trailing blanks (the content of the tag is trimmed of blanks before it is analysed);
 * parser quirk: the LAST group of a switch (case or default) is dropped when its body is empty
   (`rollupSwitchNodes` only appends the last group if it has children) — nothing to render either way.
 
@@ -76,8 +76,10 @@ def isStatic (b : Bytes) : Bool :=
 def unq (b : Bytes) : Bytes := Args.trim b Args.quotes
 def trimSp (b : Bytes) : Bytes := Args.trim b Args.space
 
-/-- the tag is trimmed of `{}% ` before it is analysed: what remains of a trailing field -/
-def tagTrimR (b : Bytes) : Bytes := (b.reverse.dropWhile (fun c => c == 123 || c == 125 || c == 37 || c == 32)).reverse
+/-- the delimiters of the tag are cut off and its content is trimmed of blanks before it is analysed (repair: it used
+    to be trimmed of every `{`, `}`, `%` and blank, which ate a suffix or a separator ending in one of them): what
+    remains of a trailing field -/
+def tagTrimR (b : Bytes) : Bytes := (b.reverse.dropWhile (fun c => c == 32)).reverse
 
 def opOf (b : Bytes) : Op :=
   if b == lit "==" then .eq else if b == lit "!=" then .nq
@@ -425,7 +427,14 @@ def altOK (s : Bytes) : Bool :=
      | [] => true
      | last :: before => (isRawName last.name || modOK last) && before.reverse.all modOK && !chainRaw before)
 
-def fixOK (b : Bytes) : Bool := noneOf [32, 63, 37, 123, 125] b
+/-- no tag delimiter inside: `{%` or `%}` -/
+def noDelims : Bytes → Bool
+  | [] => true
+  | 123 :: 37 :: _ => false
+  | 37 :: 125 :: _ => false
+  | _ :: rest => noDelims rest
+
+def fixOK (b : Bytes) : Bool := noneOf [32, 63] b && noDelims b
 
 def kwIn (kw : Bytes) (a b : String) : Bool := kw == lit a || kw == lit b
 
@@ -463,11 +472,11 @@ def inClass : Ast → Bool
   | .cloop var init op lim step sep sepKW body _ els =>
     isWord var && isWord init && (op == lit "<" || op == lit "<=" || op == lit ">" || op == lit ">=" || op == lit "!=") &&
       (isNumLit lim || isPath lim) && (step == lit "++" || step == lit "--") &&
-      (sep.isEmpty || (kwIn sepKW "separator" "sep" && noneOf [37, 123, 125] sep && sep.head? != some 32)) &&
+      (sep.isEmpty || (kwIn sepKW "separator" "sep" && noDelims sep && sep.head? != some 32)) &&
       inClassL body && runsOKb body && inClassL els && runsOKb els
   | .rloop key val src sep sepKW body _ els =>
     (key.isEmpty || isWord key) && (val.isEmpty || isWord val) && !(key.isEmpty && val.isEmpty) && key != lit "_" &&
-      isPath src && (sep.isEmpty || (kwIn sepKW "separator" "sep" && noneOf [37, 123, 125] sep && sep.head? != some 32)) &&
+      isPath src && (sep.isEmpty || (kwIn sepKW "separator" "sep" && noDelims sep && sep.head? != some 32)) &&
       inClassL body && runsOKb body && inClassL els && runsOKb els
   | .ctl kind n none =>
     kind == lit "break" || kind == lit "lazybreak" || (kind == lit "continue" && n == 0)
